@@ -512,7 +512,9 @@ Proof.
   induction rows as [|x rows IH]; intros gfb gfe; cbn [replay_loop].
   - apply QuietM_ret.
   - destruct (is_session_type (f_type x)); [apply IH|].
-    apply QuietM_bind; [destruct (gfb <? gfe); [apply QuietM_send; reflexivity|apply QuietM_ret]|intros _].
+    cbv zeta.
+    apply QuietM_bind; [match goal with |- QuietM (if ?c then _ else _) => destruct c end;
+                        [apply QuietM_send; reflexivity|apply QuietM_ret]|intros _].
     apply QuietM_bind; [destruct (f_pd x); [apply QuietM_raise|apply QuietM_ret]|intros _].
     apply QuietM_bind; [apply QuietM_send; reflexivity|intros _].
     apply IH.
@@ -527,7 +529,8 @@ Proof.
   apply QuietM_bind; [apply QuietM_get|intros w1].
   apply QuietM_bind; [apply QuietM_replay_loop|intros g].
   apply QuietM_bind; [apply QuietM_assert|intros _].
-  apply QuietM_bind; [destruct (fst g <? nout w1); [apply QuietM_send; reflexivity|apply QuietM_ret]|intros _].
+  apply QuietM_bind; [match goal with |- QuietM (if ?c then _ else _) => destruct c end;
+                      [apply QuietM_send; reflexivity|apply QuietM_ret]|intros _].
   apply QuietM_bind; [apply QuietM_get|intros w2].
   destruct (cstate_eqb (st w2) Awaiting); [apply QuietM_ret|apply QuietM_set_st; discriminate].
 Qed.
